@@ -1,3 +1,5 @@
 import Bng.Spec.C10
+import Bng.Spec.C10NatKern
 import Bng.Audit
 #audit_module Bng.Spec.C10
+#audit_module Bng.Spec.C10NatKern
